@@ -5,6 +5,11 @@ package main
 // validator updates fed to a real CometBFT ValidatorSet.
 
 import (
+	"crypto/sha256"
+	"encoding/hex"
+
+	recoverykeeper "github.com/KiraCore/sekai/x/recovery/keeper"
+	recoverytypes "github.com/KiraCore/sekai/x/recovery/types"
 	"bytes"
 	"fmt"
 	"sort"
@@ -34,6 +39,8 @@ type stakeEp struct {
 	m     int // observed accounts: the validators, then m-n accounts (world index i+1) that hold PermClaimValidator but no record yet
 	cons  map[int][]byte // consensus address announced by a claim (model index -> address)
 	claims int
+	owner  map[int]int // observed account -> world account that owns it now (after a recovery rotation)
+	fresh  []int       // world accounts without genesis account, not used yet as rotation targets
 	pendingParams *govtypes.NetworkProperties // slashing parameters to be set in the next block (after BeginBlock)
 	prop  string
 	halt  bool
@@ -69,6 +76,9 @@ func stLetter(s stakingtypes.ValidatorStatus) string {
 
 // acc: world account index of observed account i (the sudo account sits between the validators and the claimers)
 func (e *stakeEp) acc(i int) int {
+	if o, ok := e.owner[i]; ok {
+		return o // the validator was rotated to another owner address
+	}
 	if i < e.n {
 		return i
 	}
@@ -290,6 +300,25 @@ func (e *stakeEp) block(absent map[int]bool, mid []stakeOp, txs []stakeOp, dt ti
 				err = w.app.CustomSlashingKeeper.ResetWholeValidatorRank(ctx)
 			case "kpause":
 				w.app.CustomStakingKeeper.Pause(ctx, sdk.ValAddress(w.addrs[e.acc(m.v)]))
+			case "rotate":
+				// the validator's owner proves its recovery secret and moves everything it owns - the validator included - to
+				// a new address; the consensus key stays, and so must the validator's status and its place in / outside the set
+				old, nw := e.acc(m.v), e.fresh[0]
+				rms := recoverykeeper.NewMsgServerImpl(w.app.RecoveryKeeper)
+				proof := hex.EncodeToString([]byte(fmt.Sprintf("%s-secret-%d", e.label, m.v)))
+				pb, _ := hex.DecodeString(proof)
+				ch := sha256.Sum256(pb)
+				err = withCache(ctx, func(c sdk.Context) error {
+					if _, e1 := rms.RegisterRecoverySecret(sdk.WrapSDKContext(c), recoverytypes.NewMsgRegisterRecoverySecret(w.addrs[old].String(), hex.EncodeToString(ch[:]), "00", "")); e1 != nil {
+						return e1
+					}
+					_, e2 := rms.RotateRecoveryAddress(sdk.WrapSDKContext(c), recoverytypes.NewMsgRotateRecoveryAddress(w.addrs[old].String(), w.addrs[old].String(), w.addrs[nw].String(), proof))
+					return e2
+				})
+				if err == nil {
+					e.owner[m.v] = nw
+					e.fresh = e.fresh[1:]
+				}
 			}
 			out := "ok"
 			if err != nil {
@@ -368,6 +397,8 @@ func (e *stakeEp) block(absent map[int]bool, mid []stakeOp, txs []stakeOp, dt ti
 			r.Op("stake rankreset", m.out)
 		case "kpause":
 			r.Op(fmt.Sprintf("stake kpause %d", m.op.v), m.out)
+		case "rotate":
+			r.Op(fmt.Sprintf("stake rotate %d", m.op.v), m.out)
 		default:
 			r.Op(fmt.Sprintf("stake %s %d %d", m.op.kind, m.op.v, nowNext), m.out)
 		}
@@ -553,7 +584,16 @@ func newStakeEpGenesis(r *Rec, prop string, n int, label string, genesis map[int
 
 // newStakeEpClaimers: as above, plus `extra` accounts that hold PermClaimValidator but have no validator record yet
 func newStakeEpClaimers(r *Rec, prop string, n, extra int, label string, genesis map[int]stakingtypes.ValidatorStatus) *stakeEp {
-	w := NewWorld(WorldOpts{NAcc: n + 1 + extra, NVal: n, SudoAccs: []int{n}, CommitDelay: true, MutGenesis: func(w *World, gs simapp.GenesisState) {
+	// behind the claimers: two keys without account (targets of recovery rotations of validator owners)
+	nFresh := 0
+	freshSet := map[int]bool{}
+	if extra > 0 {
+		nFresh = 2
+		for j := 0; j < nFresh; j++ {
+			freshSet[n+1+extra+j] = true
+		}
+	}
+	w := NewWorld(WorldOpts{NAcc: n + 1 + extra + nFresh, NVal: n, SudoAccs: []int{n}, Fresh: freshSet, CommitDelay: true, MutGenesis: func(w *World, gs simapp.GenesisState) {
 		if len(genesis) == 0 {
 			return
 		}
@@ -567,7 +607,10 @@ func newStakeEpClaimers(r *Rec, prop string, n, extra int, label string, genesis
 		}
 		gs[stakingtypes.ModuleName] = cdc.MustMarshalJSON(&sg)
 	}})
-	e := &stakeEp{r: r, w: w, n: n, m: n + extra, prop: prop, label: label, promoted: map[int]bool{}, cons: map[int][]byte{}}
+	e := &stakeEp{r: r, w: w, n: n, m: n + extra, prop: prop, label: label, promoted: map[int]bool{}, cons: map[int][]byte{}, owner: map[int]int{}}
+	for j := 0; j < nFresh; j++ {
+		e.fresh = append(e.fresh, n+1+extra+j)
+	}
 	// small windows so that downtime and unjail deadlines are reached within an episode
 	ctx := w.KeeperCtx()
 	np := w.app.CustomGovKeeper.GetNetworkProperties(ctx)
@@ -785,6 +828,23 @@ func runStake(r *Rec, prop string) {
 						downUntil[i] = 0
 						break
 					}
+				}
+			}
+			if extra > 0 && len(e.fresh) > 0 && b > 3 && r.Rng.Intn(10) == 0 {
+				// a block of its own: the owner of a validator - in whatever status - rotates to a new address
+				var cand []int
+				for i := 0; i < n; i++ {
+					if st[i] != "-" && downUntil[i] == 0 {
+						cand = append(cand, i)
+					}
+				}
+				if len(cand) > 0 {
+					v := cand[r.Rng.Intn(len(cand))]
+					r.Count("rotate:from-" + st[v])
+					if !e.block(nil, []stakeOp{{"rotate", v}}, nil, 6*time.Second) {
+						break
+					}
+					continue
 				}
 			}
 			var mid, txs []stakeOp
